@@ -6,7 +6,6 @@
 //! a truncated immediate is zero-padded ON THE RIGHT.  `push::<LEN>(stack, code)` gets
 //! `code = bytecode[pc+1..]` (def_push! in instructions/mod.rs) and returns LEN.
 //! DUPn: duplicate the n-th item (1 = top).  SWAPn: exchange top with the (n+1)-th item.
-use super::c18_stack::*;
 use super::util::*;
 use crate::EVM_CONTRACT_STACK_UNDERFLOW;
 use crate::interpreter::instructions::stack as ops;
